@@ -18,6 +18,9 @@ NEGATIVE = [
     ("ival", "{ let w = a.peer; w.nonotify * 2 }", "unobservable property"),
     ("bval", "a.nonotify > 0 && a.bval", "unobservable property"),
     ("ival", "(a.bval ? a : b).nonotify", "unobservable property"),
+    ("ival", "a.bindonly + 1", "unobservable property"),
+    ("ival", "a.ival + a.peer.bindonly", "unobservable property"),
+    ("bval", "{ let w = a.bval ? a : b; w.bindonly > 2 }", "unobservable property"),
 ]
 POSITIVE = [("ival", "a.cval + a.ival", "")]   # CONSTANT property: nothing to observe, must be accepted
 
